@@ -883,7 +883,7 @@ func (h *RealtimeHandler) HandleReceipt(ctx context.Context, respond hwebsocket.
 			RequestId: req.RequestId,
 			Code:      hagallpb.ErrorCode_ERROR_CODE_BAD_REQUEST,
 		})
-		return errors.New("zero length receipt value detected")
+		return nil
 	}
 
 	payload := ncsclient.ReceiptPayload{
@@ -907,7 +907,6 @@ func (h *RealtimeHandler) HandleReceipt(ctx context.Context, respond hwebsocket.
 			RequestId: req.RequestId,
 			Code:      hagallpb.ErrorCode_ERROR_CODE_SERVER_TOO_BUSY,
 		})
-		return errors.New("ReceiptChan full")
 	}
 
 	return nil
